@@ -255,6 +255,8 @@ def _handle_transient_retry(
             # Atomic: store stage with context update + push retry message
             txn_helper.execute_atomic(
                 stage=fresh_stage,
+                # the retry copy replaces this message (see _handle_running)
+                source_message=message,
                 messages_to_push=[(retry_message, delay.total_seconds())],
                 handler_name="RunTask",
             )
@@ -266,6 +268,8 @@ def _handle_transient_retry(
     else:
         # Atomic: push retry message (no stage update needed)
         txn_helper.execute_atomic(
+            # the retry copy replaces this message (see _handle_running)
+            source_message=message,
             messages_to_push=[(retry_message, delay.total_seconds())],
             handler_name="RunTask",
         )
